@@ -71,6 +71,7 @@ NATIVE = dict(
                           ('src/segments/mod.rs', 'commitlog_model.rs', 'verif_native'),
                           ('src/router/logs.rs', 'datalog_model.rs', 'verif_native'),
                           ('src/router/scheduler.rs', 'scheduler_spec.rs', 'verif_native'),
+                          ('src/router/waiters.rs', 'waiters_spec.rs', 'verif_native'),
                           ('src/protocol/v4/mod.rs', 'decoder_spec.rs', 'verif_native_dec', dict(COPY='rumqttd::protocol::v4::V4::read_mut', DECODE='V4.read_mut(stream, max)')),
                           ('src/protocol/v5/mod.rs', 'decoder_spec.rs', 'verif_native_dec', dict(COPY='rumqttd::protocol::v5::V5::read_mut', DECODE='V5.read_mut(stream, max)'))]),
 )
